@@ -21,6 +21,7 @@ EXPLANATION = (
     'Provenance of the chunk location, of the chunker parameters, of the order in which files are streamed and of the piece size handed to the chunker: the terms '
     'may be built only from content, the stored configuration and the key family secrets - no clock, randomness, counter, concurrency level or argument order; '
     'dominance of the existence test (same location term) over the upload; lookup-before-insert on the chunk table. Rules C07.R1-R6.'
+    ' Added with the seeded-defect rounds: upload only through backend \'absent\' answers on all reaching definitions, stateless chunker, loader skip whitelist, completion flag of the producer, deletion confinement, cache holds content-addressed snapshot objects only.'
 )
 NOT_DECIDED = 'that the stored object set equals the distinct-chunk set after arbitrary histories (depends on runtime chunker output and backend state)'
 TRUSTED = ['the native chunker is a pure function of (buffer, final, key, bounds) - decided for the source under C10', 'CPython ast']
